@@ -8,7 +8,8 @@ class SpecC10(e1_driver.Spec):
     prop = 'C10'
     monitor = mon.MonC10
     profile = dict(p_pool_l=0.4, p_pool_s=0.15,
-                   fault_kinds=['stop_resume', 'kill', 'slice', 'slice',
+                   fault_kinds=['stop_resume', 'kill', 'kill_in_write', 'slice',
+                                'slice',
                                 'timeout', 'timeout', 'timeout', 'run_to',
                                 'run_to', 'run_to', 'toggle', 'toggle'])
     runs = dict(quick=96, thorough=1800)
